@@ -49,9 +49,80 @@ CHECKS = {
                      'implementation cases are validated back against the spec by TLC (SliceTrace.tla).',
                 note='exact small-integer float64 data; unit-step slices; TLC and the TLA+ value parser are trusted',
                 technique='TLA+ spec + TLC exhaustive enumeration, replay of every state into Dataset, TLC batch trace validation'),
+    'C05': dict(engine='Student', category='model_checking', design_ref='DESIGN.md §4 C05',
+                text='Student.tla defines per-bin oracle, p-value decision and verdict on exact rationals against critical-value bands; TLC '
+                     'enumerates all 3600 single-bin inputs x (ndf, alpha) plus reduced multi-bin and multi-dataset grids and checks symmetry, scale '
+                     'invariance, monotonicity, one-sided NaN and the agreement clauses as invariants. Every state is replayed on TestStudent; '
+                     'random N-d cases are judged back by TLC (StudentTrace.tla).',
+                note='integer-grid data and tabulated (ndf, alpha); inputs whose statistic falls inside a 1e-9 relative band around a critical value '
+                     'are skipped and counted; harness/laws.py (stdlib-only quantiles, cross-checked against scipy), TLC and the value parser are trusted',
+                technique='TLA+ spec + TLC exhaustive and seeded enumeration, replay of every state, TLC batch trace validation'),
+    'C06': dict(engine='Bonferroni', category='model_checking', design_ref='DESIGN.md §4 C06',
+                text='Bonferroni.tla defines both corrections over exact rationals with an existential sorting ranking; TLC enumerates all arrays '
+                     'over a grid straddling every level/k (NaN, ties, 0, 1; shapes 0-d to 3-d; 1-2 datasets), checks the meta-clauses as invariants '
+                     'and exhibits the tie counterexample of the inclusion clause. Every state is executed on the static methods and the test '
+                     'classes; random and Student-driven cases are judged back by TLC (BonferroniTrace.tla).',
+                note='dyadic p-values and levels; Student p-values located on a 2^-14 grid and skipped when ambiguous; open finding at the exact tie '
+                     'min p = level/m where the clauses of the statement conflict',
+                technique='TLA+ spec + TLC exhaustive enumeration, replay of every state, TLC batch trace validation'),
+    'C07': dict(engine='Chi2', category='model_checking', design_ref='DESIGN.md §4 C07',
+                text='Chi2.tla defines used bins, ndf, the exact rational statistic, tail-above-level flags and verdict; TLC enumerates 1-3-bin grids '
+                     'with both settings of the ignore-empty option, NaN/inf, 2 datasets and random cases to 8 bins; invariants: left-out bins are '
+                     'exactly the both-zero-error bins, permutation invariance, additivity, undefined never passes. Bound to TestChi2 in both directions.',
+                note='finite cells when ignore_empty is on; ndf = 0 is not judged; chi2 floats are mapped to rationals with denominator <= 10^4; '
+                     'critical-value bands from harness/laws.py',
+                technique='TLA+ spec + TLC exhaustive and seeded enumeration, replay, TLC batch trace validation'),
+    'C08': dict(engine='DatasetHeap', category='model_checking', design_ref='DESIGN.md §4 C08',
+                text='DatasetArith.tla holds the exact first-order error algebra with invariants; DatasetHeap.tla is a pool state machine with buffer '
+                     'ownership and an aliasing relation (Add/Sub/Mul/Div, Copy, Mask, Squeeze, Slice, MutateBuffer) checked exhaustively (<= 2 steps) '
+                     'and by simulation. Every state and operation sequence is executed on real Datasets with np.shares_memory and real writes, and '
+                     'judged by TLC (DatasetArithTrace / DatasetHeapTrace).',
+                note='small rational operands; exactness not judged for non-finite or large-rational chain steps',
+                technique='TLA+ specs + TLC, replay of states and op sequences into Dataset, TLC batch trace validation'),
+    'C12': dict(engine='Render', category='model_checking', design_ref='DESIGN.md §4 C12',
+                text='Render.tla is a relational specification of the allowed renderings (mark iff false, highlighted rows = failing shown rows, cells '
+                     'read back), model-checked; every TLC-enumerated input (kind x failing pattern x shape x verbosity x representer) is rendered by '
+                     'the real code, parsed back with docutils and judged by TLC (RenderTrace); TableOps.tla (slice/join/copy keep rows and masks '
+                     'together) is replayed exhaustively on TableTemplate/RstTable.',
+                note='marks of a Student test nested in a Bonferroni/Holm rendering are attributed to that Student result; valid RST = no docutils '
+                     'ERROR-level message with the hl and ref roles registered; representers without textual output are excluded',
+                technique='TLA+ relational spec + TLC, replay into the renderers with docutils read-back, TLC batch trace validation'),
+    'C13': dict(engine='Observe', category='model_checking', design_ref='DESIGN.md §4 C13',
+                text='Observe.tla makes every read-only operation a stuttering step of (verdict, statistics, inputs); TLC generates all operation '
+                     'sequences to the bound plus simulated longer ones, executed on fresh real results of 11 kinds with a deep snapshot after each '
+                     'operation; ObserveImpl.tla (key set of the classify dictionary) is checked to refine it and the inserting variant is refuted by '
+                     'TLC with its counterexample replayed; random traces are walked by TLC (ObserveTrace.tla).',
+                note='1-d datasets of 4 bins; the snapshot covers verdict, recorded statistics, test parameters and dataset bytes',
+                technique='TLA+ spec + refinement check + TLC-generated op sequences replayed, TLC trace validation'),
+    'C17': dict(engine='Browser', category='model_checking', design_ref='DESIGN.md §4 C17',
+                text='Browser.tla specifies filter / select / merge / keys / values as a naive scan and checks an independent inverted-index '
+                     'definition against it; TLC enumerates all sessions over small item lists, queries and chains, each replayed on the real Browser '
+                     'under two renderings; random sessions are validated back by TLC (BrowserTrace.tla).',
+                note='string keys; hashable non-NaN values; reserved keys excluded; corrupted-trace self-test in every run',
+                technique='TLA+ spec + TLC exhaustive session enumeration, replay, TLC batch trace validation'),
+    'C18': dict(engine='Stats', category='model_checking', design_ref='DESIGN.md §4 C18',
+                text='Stats.tla defines the three summaries as partitions / counts with counting invariants; every state TLC enumerates is evaluated '
+                     'by the real classes, a sample through the real task pipeline; random bigger inputs are validated by TLC (StatsTrace.tla).',
+                note='stub TestResults; string labels; the empty summary is judged by vacuous truth (2 open findings keyed on the empty input)',
+                technique='TLA+ spec + TLC enumeration, replay, TLC batch trace validation'),
+    'C20': dict(engine='ReportTree', category='model_checking', design_ref='DESIGN.md §4 C20',
+                text='ReportTree.tla is a state machine of the write (check, set-up, page by page, figures) over pre-order-encoded trees with '
+                     'reject-before-write as an all-states invariant; every enumerated tree on a title alphabet with reserved and unusable names is '
+                     'written by the real code into a watched scratch directory and its disk projection judged by TLC (ReportTreeTrace).',
+                note='titles from a 10-token alphabet; Sphinx toctree resolution re-implemented in the projection; open finding for titles ending in .rst',
+                technique='TLA+ spec + TLC enumeration of trees, replay into FormattedRst.write, TLC trace validation'),
 }
 
 ENGINES = {
+    'Student': dict(path='specs/Student.tla', kind_free_text='function-like TLA+ spec + StudentTrace.tla; harness/laws.py, conf_student.py'),
+    'Bonferroni': dict(path='specs/Bonferroni.tla', kind_free_text='function-like TLA+ spec + BonferroniTrace.tla; conf_bonferroni.py'),
+    'Chi2': dict(path='specs/Chi2.tla', kind_free_text='function-like TLA+ spec + Chi2Trace.tla; conf_chi2.py'),
+    'DatasetHeap': dict(path='specs/DatasetHeap.tla', kind_free_text='pool/aliasing state machine + DatasetArith.tla + trace specs; conf_dataset.py'),
+    'Render': dict(path='specs/Render.tla', kind_free_text='relational rendering spec + TableOps.tla + trace specs; conf_render.py'),
+    'Observe': dict(path='specs/Observe.tla', kind_free_text='stuttering spec + ObserveImpl.tla refinement + ObserveTrace.tla; conf_observe.py'),
+    'Browser': dict(path='specs/Browser.tla', kind_free_text='naive-scan spec + BrowserTrace.tla; conf_browser.py'),
+    'Stats': dict(path='specs/Stats.tla', kind_free_text='partition/count spec + StatsTrace.tla; conf_stats.py'),
+    'ReportTree': dict(path='specs/ReportTree.tla', kind_free_text='write state machine over report trees + ReportTreeTrace.tla; conf_report.py'),
     'Sched': dict(path='specs/Sched.tla', kind_free_text='TLA+ spec of the queue backend (master, workers, queue, condition variable, environment) + SchedMC.tla (configuration spaces) + SchedTrace.tla (trace validation, strict/observer); harness/detsched.py (deterministic scheduler), schedrun.py (probes, projection), conf_sched.py'),
     'Runs': dict(path='specs/Runs.tla', kind_free_text='TLA+ spec of histories of runs with persistence and faults + RunsMC.tla + RunsTrace.tla; harness/conf_runs.py'),
     'Slice': dict(path='specs/Slice.tla', kind_free_text='TLA+ function-like spec (Init enumerates inputs, Eval computes output) + SliceTrace.tla; harness/conf_slice.py'),
